@@ -97,9 +97,10 @@ fn profile_for(suite: &str) -> Profile {
     match suite {
         "C06" => Profile { next: 40, peek: 15, setmode: 15, curmode: 20, modename: 5, setoff_any: 5, withoff: 4, ..Default::default() },
         "C07" => Profile { next: 40, nextp: 5, peek: 10, adv_after_peek: 5, adv_any: 5, setoff_any: 10, setmode: 5, off: 5, run_out: 5, ..Default::default() },
-        "C09" => Profile { next: 15, nextp: 35, setoff_back: 18, pos: 22, run_out: 6, setmode: 4, ..Default::default() },
+        "C09" => Profile { next: 15, nextp: 35, setoff_back: 18, pos: 22, run_out: 6, setmode: 4, peek: 8, ..Default::default() },
+        "C04" | "C05" => Profile { next: 40, peek: 15, setoff_any: 15, setoff_back: 8, setmode: 10, run_out: 6, curmode: 3, ..Default::default() },
         "C10" => Profile { next: 40, peek: 15, adv_after_peek: 15, setoff_any: 15, withoff: 8, setmode: 8, run_out: 5, ..Default::default() },
-        "C11" => Profile { next: 35, peek: 40, setmode: 8, setoff_any: 7, curmode: 5, off: 5, ..Default::default() },
+        "C11" => Profile { next: 35, peek: 40, setmode: 8, setoff_any: 7, curmode: 5, off: 5, pos: 8, nextp: 6, ..Default::default() },
         _ => Profile { next: 50, peek: 10, setoff_any: 10, setmode: 5, curmode: 5, pos: 5, nextp: 10, run_out: 5, ..Default::default() },
     }
 }
@@ -322,6 +323,10 @@ fn case_find_with(seed: u64, idx: usize, suite: &str, preset: Option<(Vec<ModeSp
     };
     // C01: a third of the programs goes through `add_patterns` (token type = pattern index)
     let via_add_patterns = suite == "C01" && r.chance(33);
+    if via_add_patterns && r.chance(25) {
+        let at = r.below(spec[0].patterns.len() + 1);
+        spec[0].patterns.insert(at, PatSpec { pattern: String::new(), tid: 0, lookahead: None });
+    }
     if via_add_patterns {
         for (i, p) in spec[0].patterns.iter_mut().enumerate() {
             p.tid = i;
@@ -474,6 +479,18 @@ fn case_find_with(seed: u64, idx: usize, suite: &str, preset: Option<(Vec<ModeSp
         // fused: one more next
         let p = Profile { next: 1, ..Default::default() };
         h.step(&mut r, &p, out);
+        // C01: a short history (tokens, previews, resets to consumed offsets) on a second iterator
+        if suite == "C01" && idx % 2 == 0 {
+            out.push_str("new 0\n");
+            let mut h2 = History::new(&scanner, &input, 0, dump.modes.len());
+            let p = Profile { next: 45, peek: 25, setoff_back: 25, off: 5, ..Default::default() };
+            for _ in 0..r.range(6, 18) {
+                if h2.dead {
+                    break;
+                }
+                h2.step(&mut r, &p, out);
+            }
+        }
         // the same iterator once more after it reached the end (an over-long peek, then from 0)
         if !h.dead && idx % 2 == 1 {
             let p = Profile { peek: 1, ..Default::default() };
@@ -492,7 +509,7 @@ fn case_find_with(seed: u64, idx: usize, suite: &str, preset: Option<(Vec<ModeSp
 /// results; histories of operations according to the profile of the property.
 fn case_iter(seed: u64, idx: usize, suite: &str, cache: &TableCache, out: &mut String, st: &mut Stats) {
     let mut r = Rng::derive(seed, idx as u64);
-    let pc = ProgCfg { max_modes: 4, max_patterns: 4, lookahead: 15, nullable: true, transitions: true, big_tids: false };
+    let pc = ProgCfg { max_modes: 4, max_patterns: 4, lookahead: if suite == "C04" || suite == "C05" { 55 } else { 15 }, nullable: true, transitions: true, big_tids: false };
     let mut spec = cfggen::gen_program(&mut r, &pc);
     if suite == "C09" {
         // tokens that span line breaks, in some modes
@@ -504,6 +521,30 @@ fn case_iter(seed: u64, idx: usize, suite: &str, cache: &TableCache, out: &mut S
                 m.patterns.insert(pos, cfggen::PatSpec { pattern: r.pick(&MULTILINE).to_string(), tid, lookahead: None });
             }
         }
+    }
+    // C06: mode names with quotes, backslashes, control and non-ASCII characters
+    let mut r10 = Rng::derive(seed ^ 0x0c06_a3e5, idx as u64);
+    if suite == "C06" && r10.chance(25) {
+        let m = r10.below(spec.len());
+        spec[m].name = format!("{}{}", r10.pick(&["IN\"STRING\"", "Zeichenkette_ä", "back\\slash", "tab\there", "", "名前", "a b"]), m);
+    }
+    // C07: a lookahead or pattern that cannot be compiled (building must return an error), a mode
+    // without patterns
+    if suite == "C07" && r10.chance(8) {
+        let m = r10.below(spec.len());
+        let k = r10.below(spec[m].patterns.len());
+        let bad = r10.pick(&["c*?", "(c", "\\b", "[", "(?i)a"]).to_string();
+        if r10.chance(60) {
+            spec[m].patterns[k].lookahead = Some((r10.chance(50), bad));
+        } else {
+            spec[m].patterns[k].pattern = bad;
+        }
+        st.count("configurations_with_an_uncompilable_expression", 1);
+    }
+    if (suite == "C07" || suite == "C06") && r10.chance(6) {
+        let nm = format!("EMPTY{}", spec.len());
+        spec.push(ModeSpec { name: nm, patterns: vec![], transitions: vec![] });
+        st.count("modes_without_patterns", 1);
     }
     // C06, C07: two modes with the same name (modes are addressed by index)
     let mut r7 = Rng::derive(seed ^ 0x0c07_dd07, idx as u64);
@@ -1070,6 +1111,14 @@ fn case_c03(seed: u64, idx: usize, cache: &TableCache, out: &mut String, st: &mu
             let c = *r2.pick(&['a', 'b', 'c']);
             spec[m].patterns[k].pattern = format!("{}{}{}{}", r2.pick(&['b', 'c', 'd']), c, c, c);
         }
+    }
+    // a chain of more than 64 states that differ only in their distance to acceptance
+    if r2.chance(6) {
+        let m = r2.below(spec.len());
+        let k = r2.below(spec[m].patterns.len());
+        let n = 66 + r2.below(70);
+        spec[m].patterns[k].pattern = if r2.chance(50) { format!("{}{{{}}}", r2.pick(&['a', 'b', 'x']), n) } else { format!("[0-9a-f]{{{}}}", n) };
+        st.count("counted_repetitions_above_64", 1);
     }
     // spare terminal ids (shared token type / empty-only pattern) together with a run of one
     // character (needs a second refinement round)
@@ -1940,7 +1989,11 @@ fn c14_round(seed: u64, round: usize, cache: &TableCache, out: &mut String, st: 
                     6 => WOp::Peek { k: tr.below(4), n: tr.below(3) },
                     7 => WOp::FindIter { s: *tr.pick(&[0, 1, 3, 99]), k: tr.below(4), input: tr.below(4) },
                     8 => WOp::Build { s: 1, cfg: *tr.pick(&[0, 1, 2]) },
-                    _ => WOp::ICurMode { k: tr.below(4) },
+                    _ => match tr.below(4) {
+                        0 => WOp::SSetMode { s: *tr.pick(&[0, 1, 3]), m: tr.below(2) },
+                        1 | 2 => WOp::SCurMode { s: *tr.pick(&[0, 1, 3]) },
+                        _ => WOp::ICurMode { k: tr.below(4) },
+                    },
                 });
             }
             let mut body = String::new();
@@ -2209,6 +2262,21 @@ fn case_c15(seed: u64, idx: usize, out: &mut String, st: &mut Stats) {
         5..=7 => Some(buildgen::meta_string(&mut r)),
         _ => None,
     };
+    let mut r3 = Rng::derive(seed ^ 0x0c15_5a5e, idx as u64);
+    if r3.chance(15) {
+        let m = r3.below(spec.len());
+        if spec[m].patterns.len() >= 2 {
+            let t = spec[m].patterns[0].tid;
+            let k = 1 + r3.below(spec[m].patterns.len() - 1);
+            spec[m].patterns[k].tid = t;
+            if spec[m].patterns[0].lookahead.is_none() {
+                spec[m].patterns[0].lookahead = Some((r3.chance(50), "a".to_string()));
+            }
+            let bad = if let Some(text) = &special { text.clone() } else { buildgen::planted(&mut r3) };
+            spec[m].patterns[k].lookahead = Some((r3.chance(50), bad));
+            st.count("shared_token_type_with_two_lookaheads", 1);
+        }
+    }
     if let Some(text) = &special {
         let m = r.below(spec.len());
         let p = r.below(spec[m].patterns.len());
@@ -2314,6 +2382,17 @@ fn case_c16(seed: u64, idx: usize, cache: &TableCache, out: &mut String, st: &mu
             spec[m].transitions.sort();
             st.count("token_types_beyond_2^53", 1);
         }
+    }
+    if r2.chance(12) {
+        let m = r2.below(spec.len());
+        let k = r2.below(spec[m].patterns.len());
+        spec[m].patterns[k].lookahead = Some((r2.chance(50), String::new()));
+        st.count("lookaheads_with_an_empty_pattern", 1);
+    }
+    if r2.chance(10) {
+        let m = r2.below(spec.len());
+        spec[m].name = String::new();
+        st.count("modes_with_an_empty_name", 1);
     }
     if r2.chance(20) {
         let m = r2.below(spec.len());
@@ -2463,7 +2542,8 @@ fn case_c18(seed: u64, idx: usize, cache: &TableCache, out: &mut String, st: &mu
     let pc = ProgCfg { max_modes: 3, max_patterns: 4, lookahead: 40, nullable: true, transitions: true, big_tids: false };
     let mut spec = cfggen::gen_program(&mut r, &pc);
     let mut r3 = Rng::derive(seed ^ 0x18d0_7d07, idx as u64);
-    let prefix: &str = *r3.pick(&["pre", "pre", "v0.9", "x.y.z", "pre fix"]);
+    let abs = format!("/svabs{}", std::process::id());
+    let prefix: &str = *r3.pick(&["pre", "pre", "v0.9", "x.y.z", "pre fix", abs.as_str()]);
     // two patterns of a mode sharing a token type (one lookahead per token type: one cluster)
     if r3.chance(25) {
         let m = r3.below(spec.len());
@@ -2524,7 +2604,7 @@ fn case_c18(seed: u64, idx: usize, cache: &TableCache, out: &mut String, st: &mu
                 let _ = writeln!(junk, "  old{} -> old{} [label=\"9{}\"];", i, i + 1, i);
             }
             junk.push_str("}\n");
-            let _ = std::fs::write(dir.join(format!("{}_{}.dot", prefix, m.name)), junk);
+            let _ = std::fs::write(dir.join(format!("{}_{}.dot", prefix.trim_start_matches('/'), m.name)), junk);
         }
         st.count("files_existed_before", 1);
     }
@@ -2538,7 +2618,8 @@ fn case_c18(seed: u64, idx: usize, cache: &TableCache, out: &mut String, st: &mu
             // one file per mode, named from the prefix and the mode name
             let mut names: Vec<String> = std::fs::read_dir(&dir).unwrap().flatten().map(|e| e.file_name().to_string_lossy().to_string()).collect();
             names.sort();
-            let mut want: Vec<String> = spec.iter().map(|m| format!("{}_{}.dot", prefix, m.name)).collect();
+            // (a leading separator of the prefix is swallowed by the one after the folder)
+            let mut want: Vec<String> = spec.iter().map(|m| format!("{}_{}.dot", prefix.trim_start_matches('/'), m.name)).collect();
             want.sort();
             want.dedup();
             if names != want {
@@ -2551,7 +2632,7 @@ fn case_c18(seed: u64, idx: usize, cache: &TableCache, out: &mut String, st: &mu
                 if spec.iter().skip(m + 1).any(|o| o.name == mode.name) {
                     continue;
                 }
-                let path = dir.join(format!("{}_{}.dot", prefix, mode.name));
+                let path = dir.join(format!("{}_{}.dot", prefix.trim_start_matches('/'), mode.name));
                 let text = std::fs::read_to_string(&path).unwrap_or_default();
                 let _ = writeln!(out, "dot {}", m);
                 match dotparse::parse(&text) {
@@ -2607,7 +2688,7 @@ fn case_c18(seed: u64, idx: usize, cache: &TableCache, out: &mut String, st: &mu
     let file_as_dir = std::env::temp_dir().join(format!("scnr_verif_c18_file_{}_{}_{}", std::process::id(), seed, idx));
     let _ = std::fs::write(&file_as_dir, "x");
     for (what, p) in [("missing folder", missing), ("path below a regular file", file_as_dir.join("sub"))] {
-        let res = catch_unwind(AssertUnwindSafe(|| scanner.generate_compiled_automata_as_dot("pre", &p)));
+        let res = catch_unwind(AssertUnwindSafe(|| scanner.generate_compiled_automata_as_dot(prefix, &p)));
         match res {
             Err(_) => {
                 let _ = writeln!(out, "oracle FAIL generate_compiled_automata_as_dot panicked for a {}\nexpect oracle", what);
@@ -2619,6 +2700,24 @@ fn case_c18(seed: u64, idx: usize, cache: &TableCache, out: &mut String, st: &mu
         }
     }
     let _ = std::fs::remove_file(&file_as_dir);
+    // nothing may have been written outside the target folder (absolute prefix)
+    if prefix.starts_with('/') {
+        let mut stray: Vec<String> = Vec::new();
+        if let Ok(rd) = std::fs::read_dir("/") {
+            for e in rd.flatten() {
+                let n = e.file_name().to_string_lossy().to_string();
+                if n.starts_with(prefix.trim_start_matches('/')) {
+                    let _ = std::fs::remove_file(e.path());
+                    stray.push(n);
+                }
+            }
+        }
+        if stray.is_empty() {
+            out.push_str("oracle ok\nexpect oracle\n");
+        } else {
+            let _ = writeln!(out, "oracle FAIL files were written outside the target folder: /{}\nexpect oracle", stray.join(", /"));
+        }
+    }
     if st.samples.len() < 2 {
         st.samples.push(describe(&spec));
     }
@@ -2983,6 +3082,7 @@ fn main() {
                         }
                     }
                     match suite.as_str() {
+                        "C04" | "C05" if idx % 3 == 2 => case_iter(seed, idx, &suite, &cache, &mut out, &mut st),
                         "C01" | "C04" | "C05" | "find" => case_find(seed, idx, &suite, &cache, &rcache, &mut out, &mut st),
                         "C02" => case_c02(seed, idx, &cache, &rcache, &mut out, &mut st),
                         "C03" => case_c03(seed, idx, &cache, &mut out, &mut st),
